@@ -112,8 +112,65 @@ def with_redundancy(rng, ts, ctx):
             t = combo(rng, ctx, F(0)) if ctx else None
             if t and t[0]:
                 out.insert(rng.randint(0, len(out)), t)
+    if ctx and rng.random() < 0.2:
+        # the exact mirror (a negative multiple, constant included) of a context term: NOT redundant -- together they pin an
+        # equality; sometimes shifted so that it is a plain opposite bound
+        t = rng.choice(ctx)
+        k = rng.choice([F(1), F(2), F(1, 2), F(3)])
+        shift = rng.choice([F(0), F(0), F(0), F(1), F(2)])
+        out.insert(rng.randint(0, len(out)), ({v: -k * a for v, a in t[0].items()}, -k * t[1] + k * shift))
     return out
 
 
 def key_of(ts):
     return tuple((tuple(sorted(t[0].items())), t[1]) for t in ts)
+
+
+def kaykobad_case(rng, refine, names=None):
+    """A term over three (sometimes four) eliminated variables plus a kept one, and context rows forming a matrix with one
+    dominant ("diagonal") eliminated variable per row and smaller couplings to the others: the territory of the Kaykobad
+    test behind tactics 1 and 3, where the accumulated couplings of a column (not each row's alone) decide whether solving
+    the rows as equalities bounds the term.  Returns (terms, context, eliminated, kept)."""
+    names = list(names or VARS)
+    n = 3 if (len(names) < 6 or rng.random() < 0.75) else 4
+    elim, kept = names[:n], names[n:]
+    tc = 1 if refine else -1
+    dense = rng.random() < 0.6
+    sg = [rng.choice([1, 1, -1]) for _ in range(n)]
+    q = [F(rng.choice([1, 1, 2])) for _ in range(n)]
+    term = {elim[j]: sg[j] * q[j] for j in range(n)}
+    if kept and rng.random() < 0.8:
+        term[kept[0]] = F(rng.choice([1, -1, 2]))
+    if rng.random() < 0.4:
+        # "sandwich": the rows chosen for the first and the last variable both lean on a middle one; each coupling alone is
+        # below the term's coefficient, their sum is not -- only the ACCUMULATED column sum shows that the rows do not bound it
+        mid = rng.randrange(n)
+        a, b = rng.choice([(F(1, 2), F(1, 2)), (F(3, 4), F(1, 2)), (F(1, 2), F(3, 4)), (F(3, 4), F(3, 4)), (F(1, 4), F(1, 2)), (F(1, 4), F(3, 4))])
+        outer = [j for j in range(n) if j != mid]
+        lean = {outer[0]: a, outer[-1]: b}
+        order_rows = [outer[0]] + [j for j in range(n) if j not in (outer[0], outer[-1])] + [outer[-1]]
+        ctx = []
+        for i in order_rows:
+            d = rng.choice([F(1), F(1), F(2)])
+            row = {elim[i]: F(tc * sg[i]) * d}
+            if i in lean:
+                row[elim[mid]] = F(tc * sg[mid]) * lean[i] * d * q[mid] / q[i]
+            if kept:
+                row[rng.choice(kept)] = F(rng.choice([1, -1]))
+            ctx.append((row, F(rng.randint(0, 6))))
+        return [(term, F(rng.randint(0, 8)))], ctx, elim, kept
+    ctx = []
+    for i in range(n):
+        row = {elim[i]: F(tc * sg[i]) * rng.choice([F(1), F(1), F(2)])}
+        for j in range(n):
+            if j != i:
+                c = rng.choice([F(0), F(1, 4), F(1, 2), F(1, 2), F(3, 4), F(3, 4), F(1)] if dense else [F(0), F(0), F(0), F(1, 4), F(1, 2), F(3, 4)])
+                if c:
+                    row[elim[j]] = F(tc * sg[j]) * c
+        if kept and rng.random() < 0.85:
+            row[rng.choice(kept)] = F(rng.choice([1, -1]))
+        ctx.append((row, F(rng.randint(0, 6))))
+    if rng.random() < 0.3:
+        ctx.append(({elim[rng.randrange(n)]: F(tc * rng.choice([1, -1]))}, F(rng.randint(0, 6))))
+    rng.shuffle(ctx)
+    return [(term, F(rng.randint(0, 8)))], ctx, elim, kept
